@@ -1,6 +1,6 @@
 (* Pack/RecordsProofs.v -- what is stored for a set of records is, at every offset of the file, the byte of the one record that
    covers it (zero where no text was written): every record reads back in full whatever the other records are. *)
-From Coq Require Import Bool.
+From Coq Require Import Bool Permutation.
 From A2 Require Import Base.Bytes Pack.Records.
 Open Scope N_scope.
 
@@ -142,6 +142,105 @@ Section Stored.
       rewrite (lookup_unique r d' d Hr' Hr) in Hi'. lia.
   Qed.
 End Stored.
+
+(* ---------- the packed image does not depend on the order in which the records are taken ---------- *)
+
+Fixpoint sorted_lt (l : list N) : Prop := match l with [] => True | x :: r => (forall y, In y r -> x < y) /\ sorted_lt r end.
+
+Lemma insert_sorted_In x y m : In x (insert_sorted y m) <-> x = y \/ In x m.
+Proof.
+  induction m as [|z m IH]; cbn [insert_sorted]; [cbn; intuition|].
+  destruct (N.ltb_spec y z); [cbn; intuition|]. destruct (N.eqb_spec y z) as [->|E]; cbn [In]; [intuition|]. rewrite IH. intuition.
+Qed.
+Lemma insert_sorted_sorted y m : sorted_lt m -> sorted_lt (insert_sorted y m).
+Proof.
+  induction m as [|z m IH]; intros H; cbn [insert_sorted]; [cbn; intuition|]. destruct H as [Hz Hm].
+  destruct (N.ltb_spec y z) as [Hlt|Hge].
+  - cbn [sorted_lt]. split; [|split; assumption]. intros w [<-|Hw]; [exact Hlt | specialize (Hz w Hw); lia].
+  - destruct (N.eqb_spec y z) as [->|E]; [cbn [sorted_lt]; split; assumption|].
+    cbn [sorted_lt]. split; [|apply IH, Hm]. intros w Hw. apply insert_sorted_In in Hw. destruct Hw as [->|Hw]; [lia | apply Hz, Hw].
+Qed.
+Lemma sorted_ids_sorted l : sorted_lt (sorted_ids l).
+Proof. induction l as [|x l IH]; cbn [sorted_ids fold_right]; [exact I|]. apply insert_sorted_sorted, IH. Qed.
+
+Lemma sorted_ext l : forall l', sorted_lt l -> sorted_lt l' -> (forall x, In x l <-> In x l') -> l = l'.
+Proof.
+  induction l as [|a l IH]; intros [|b l'] H H' E.
+  - reflexivity.
+  - exfalso. apply (E b). left. reflexivity.
+  - exfalso. apply (E a). left. reflexivity.
+  - destruct H as [Ha Hl]. destruct H' as [Hb Hl'].
+    assert (a = b).
+    { destruct (proj1 (E a) (or_introl eq_refl)) as [->|Hin]; [reflexivity|]. destruct (proj2 (E b) (or_introl eq_refl)) as [->|Hin']; [reflexivity|].
+      specialize (Ha b Hin'). specialize (Hb a Hin). lia. }
+    subst b. f_equal. apply IH; try assumption. intros x. split; intros Hx.
+    + destruct (proj1 (E x) (or_intror Hx)) as [->|G]; [|exact G]. specialize (Ha x Hx). lia.
+    + destruct (proj2 (E x) (or_intror Hx)) as [->|G]; [|exact G]. specialize (Hb x Hx). lia.
+Qed.
+
+Lemma fold_max_perm (P : N * N -> bool) (g : N * N -> N) l l' : Permutation l l' ->
+  forall m, fold_left (fun m w => if P w then N.max m (g w) else m) l m = fold_left (fun m w => if P w then N.max m (g w) else m) l' m.
+Proof.
+  induction 1 as [|x l l' _ IH|x y l|l l' l'' _ IH1 _ IH2]; intros m; cbn [fold_left].
+  - reflexivity.
+  - apply IH.
+  - f_equal. destruct (P x), (P y); lia.
+  - rewrite IH1. apply IH2.
+Qed.
+
+Section Order.
+  Variables L rl : N.
+  Variable force0 : bool.
+  Variables rs rs' : recset.
+  Hypothesis HL : 0 < L.
+  Hypothesis Hperm : Permutation rs rs'.
+  Hypothesis Hkeys : NoDup (map fst rs).
+  Hypothesis Hfit : forall r d, In (r, d) rs -> lenN d <= rl.
+
+  Lemma writes_perm : Permutation (writes rl rs) (writes rl rs').
+  Proof. unfold writes. apply Permutation_flat_map. exact Hperm. Qed.
+
+  (* an offset is written at most once *)
+  Lemma writes_functional off v v' : In (off, v) (writes rl rs) -> In (off, v') (writes rl rs) -> v = v'.
+  Proof.
+    intros H H'. apply (writes_In L rl rs HL Hfit) in H. apply (writes_In L rl rs HL Hfit) in H'.
+    destruct H as [r [d [i [Hr [Hi [E ->]]]]]]. destruct H' as [r' [d' [i' [Hr' [Hi' [E' ->]]]]]].
+    pose proof (Hfit r d Hr) as F. pose proof (Hfit r' d' Hr') as F'. unfold lenN in F, F'.
+    assert (r' = r).
+    { assert (A : off / rl = r) by (rewrite E, N.mul_comm; symmetry; apply N.div_unique with (N.of_nat i); lia).
+      assert (B : off / rl = r') by (rewrite E', N.mul_comm; symmetry; apply N.div_unique with (N.of_nat i'); lia). congruence. }
+    subst r'. rewrite (lookup_unique rl rs Hkeys r d' d Hr' Hr). f_equal. lia.
+  Qed.
+
+  Lemma byte_at_perm off : byte_at (writes rl rs) off = byte_at (writes rl rs') off.
+  Proof.
+    destruct (find (fun w => fst w =? off) (writes rl rs)) as [[o v]|] eqn:E.
+    - apply find_some in E. destruct E as [Hin He]. cbn [fst] in He. apply N.eqb_eq in He. subst o.
+      destruct (byte_at_some _ _ _ Hin) as [v1 [H1 ->]].
+      destruct (byte_at_some _ _ _ (Permutation_in _ writes_perm Hin)) as [v2 [H2 ->]].
+      apply (Permutation_in _ (Permutation_sym writes_perm)) in H2. exact (writes_functional off v1 v2 H1 H2).
+    - assert (N1 : forall v, ~ In (off, v) (writes rl rs)).
+      { intros v Hv. apply (find_none _ _ E) in Hv. cbn [fst] in Hv. rewrite N.eqb_refl in Hv. discriminate. }
+      rewrite (byte_at_none _ _ N1). symmetry. apply byte_at_none. intros v Hv. apply (N1 v). exact (Permutation_in _ (Permutation_sym writes_perm) Hv).
+  Qed.
+
+  Theorem rec_pack_order : rec_pack L rl force0 rs = rec_pack L rl force0 rs'.
+  Proof.
+    unfold rec_pack.
+    assert (Hlen : forall c, chunk_len_of L (writes rl rs) c = chunk_len_of L (writes rl rs') c).
+    { intros c. unfold chunk_len_of. apply (fold_max_perm (fun w => fst w / L =? c) (fun w => fst w mod L + 1)). exact writes_perm. }
+    assert (Hids : sorted_ids ((if force0 then [0] else []) ++ chunk_ids L (writes rl rs)) = sorted_ids ((if force0 then [0] else []) ++ chunk_ids L (writes rl rs'))).
+    { apply sorted_ext; try apply sorted_ids_sorted. intros x. rewrite !sorted_ids_In, !in_app_iff. unfold chunk_ids.
+      assert (P : Permutation (map (fun w : N * N => fst w / L) (writes rl rs)) (map (fun w : N * N => fst w / L) (writes rl rs'))) by (apply Permutation_map, writes_perm).
+      split; (intros [H|H]; [left; exact H | right]); [exact (Permutation_in _ P H) | exact (Permutation_in _ (Permutation_sym P) H)]. }
+    rewrite Hids. f_equal.
+    - apply map_ext. intros c. f_equal. rewrite Hlen. apply map_ext. intros j. apply byte_at_perm.
+    - assert (G : forall ids m, fold_left (fun m c => if chunk_len_of L (writes rl rs) c =? 0 then m else N.max m (c * L + (if force0 && (c =? 0) then L else chunk_len_of L (writes rl rs) c))) ids m
+                        = fold_left (fun m c => if chunk_len_of L (writes rl rs') c =? 0 then m else N.max m (c * L + (if force0 && (c =? 0) then L else chunk_len_of L (writes rl rs') c))) ids m).
+      { induction ids as [|c ids IH]; intros m; cbn [fold_left]; [reflexivity|]. rewrite Hlen. apply IH. }
+      apply G.
+  Qed.
+End Order.
 
 Example rec_pack_example :
   let img := rec_pack 256 300 true [(0, [72; 73; 13]); (1, [65; 13]); (3, [90])] in
